@@ -398,36 +398,42 @@ func (b *Builder) NotSupported(o interface{}) {
 }
 
 func (b *Builder) AddDeviate(o interface{}) *AddDeviate {
-	var add AddDeviate
 	d, valid := o.(*Deviation)
 	if !valid {
 		b.setErr(fmt.Errorf("%T does not allow deviate, only deviations do", o))
-	} else {
-		d.Add = &add
+		return &AddDeviate{}
 	}
-	return &add
+	if d.Add == nil {
+		// (a deviation may hold several deviate statements of a kind, they add up)
+		d.Add = &AddDeviate{}
+	}
+	return d.Add
 }
 
 func (b *Builder) ReplaceDeviate(o interface{}) *ReplaceDeviate {
-	var x ReplaceDeviate
 	d, valid := o.(*Deviation)
 	if !valid {
 		b.setErr(fmt.Errorf("%T does not allow deviate, only deviations do", o))
-	} else {
-		d.Replace = &x
+		return &ReplaceDeviate{}
 	}
-	return &x
+	if d.Replace == nil {
+		// (a deviation may hold several deviate statements of a kind, they add up)
+		d.Replace = &ReplaceDeviate{}
+	}
+	return d.Replace
 }
 
 func (b *Builder) DeleteDeviate(o interface{}) *DeleteDeviate {
-	var x DeleteDeviate
 	d, valid := o.(*Deviation)
 	if !valid {
 		b.setErr(fmt.Errorf("%T does not allow deviate, only deviations do", o))
-	} else {
-		d.Delete = &x
+		return &DeleteDeviate{}
 	}
-	return &x
+	if d.Delete == nil {
+		// (a deviation may hold several deviate statements of a kind, they add up)
+		d.Delete = &DeleteDeviate{}
+	}
+	return d.Delete
 }
 
 func (b *Builder) Uses(o interface{}, ident string) *Uses {
